@@ -17,7 +17,7 @@ from harness.props.c14 import C14, spec_meta, simple_pattern
 
 INC = '_tape_recorder_incomplete_recording'
 K3 = 's3-filter-non-json-native-metadata'
-CATS = ['Op', 'OpB', 'Op_x', 'O', 'Q']
+CATS = ['Op', 'OpB', 'Op_x', 'O', 'Q', 'Op.v2', 'svc.ops.Invoice']
 PREFIXES = ['', 'p', 'xmetadata', 'a/b']
 MD_KEYS = ['a', 'b', 'c', 'dd']
 STORES = ('mem', 'file', 's3')
@@ -218,7 +218,7 @@ class C10(Prop):
                       'lookup and cassette; mem and s3 compared as exact ordered id lists, file as a set (no limit) or a '
                       'size (limit) because os.listdir order is arbitrary; S3 facade listing of the one category prefix '
                       'compared with the model\'s S3 answer)')
-    RULE = ('stores of 0-12 recordings over the categories Op, OpB, Op_x, O, Q (prefixes of one another, underscores) saved '
+    RULE = ('stores of 0-12 recordings over the categories Op, OpB, Op_x, O, Q, Op.v2, svc.ops.Invoice (prefixes of one another, underscores, dots) saved '
             'in the same order on an in-memory, a file based and an S3 cassette (fake bucket, key prefixes \'\', p, '
             'xmetadata, a/b, foreign objects next to the cassette\'s own); metadata over a small key set with absent keys, '
             'heterogeneous values and the incomplete-recording key absent/False/True/None/0/\'x\'; ~6 lookups per store: '
@@ -240,7 +240,7 @@ class C10(Prop):
                'correspondence harness harness/props/c10.py (rebinds uuid, datetime, shuffle, random.choice in the '
                'cassette modules to deterministic stand-ins equal to the driver\'s chOf / rotate) + Lean driver '
                '(Drive/Lookup.lean)']
-    ASSUMPTIONS = ["categories contain no '/'; uuids contain no '/', '_' or '.' (uuid1().hex is [0-9a-f]*)",
+    ASSUMPTIONS = ["categories contain no '/'; uuids contain no '/' or '_' (uuid1().hex is [0-9a-f]*)",
                    'metadata values and filters range over the faithful domain: None, bools, ints, finite floats, strings, '
                    'lists, string-keyed dicts (and, as known finding K3, tuples and classes); NaN excluded',
                    'no time window (start_date None); windows are C16',
